@@ -337,14 +337,17 @@ static void caseS(uint64_t i, vr::Ctx& ctx)
         ctx.count("evaluations", 1);
         ctx.nontrivial(vr::hash_str(r.wire));
         ctx.state(vr::hash_str(r.wire, 5));
+        if (len % 8 == 0 || (len >= 400 && len <= 530))
+        {
+            // the same length with a binary body (0xFF / 0x00 / 0x80 at every offset)
+            s.salt = 100 + int(len / 8) % 3;
+            ctx.note("send code=" + std::to_string(s.code) + " len=" + std::to_string(len) + " binary body");
+            RspResult rb = run_response(s, &steps);
+            check_parsed(s, rb, ctx);
+            ctx.count("evaluations", 1);
+        }
         if (ctx.case_violations > 5)
             break;
-    }
-    // single byte bodies of every value
-    for (int c = 0; c < 256 && i % 5 == 0; ++c)
-    {
-        // payload() is deterministic: emulate an arbitrary byte through the salt-independent path below
-        (void)c;
     }
     ctx.count("transitions", steps);
     ctx.outcome("send round trip");
@@ -361,7 +364,7 @@ static void caseB(uint64_t i, vr::Ctx& ctx)
     s.code       = gCodes[i % gCodes.size()];
     s.headers    = gHdrSets[i % gHdrSets.size()];
     s.cookies    = gCookieSets[i % gCookieSets.size()];
-    s.salt       = int(i % 5);
+    s.salt       = (i % 11 == 10) ? 100 + int(i / 11) % 3 : int(i % 5); // every 11th: binary payloads
     uint64_t steps = 0;
     ctx.note("stream program #" + std::to_string(i / 3) + " streamSize=" + std::to_string(s.streamSize));
     RspResult r = run_response(s, &steps);
